@@ -137,7 +137,7 @@ theorem apply_leaf (o : Opts) (root : List Name) (hrv : ∀ c ∈ root, validNam
     rw [hdst] at h2
     refine ⟨s', ?_, ?_, h3⟩
     · simpa [leafNodeAt, hk, applyNode, metaOf] using h1
-    · simpa [objOf, hk, linkAttrOfRec_eq] using h2
+    · simpa [objOf, hk, linkAttrOfRec_eq, mtimeOf_eq] using h2
   · obtain ⟨s', h1, h2, h3⟩ := createDevice_fresh o root s (joinPath d f.base) (metaOf f)
       f.major.toNat f.minor.toNat (hdst ▸ hG) (hdst ▸ hfresh) hxnd (fun hO => hfit hO (.inr hk))
     rw [hdst] at h2
